@@ -45,6 +45,13 @@ def observe_running(w: progs.World, label: str, problems: List[str], records: Li
     from stackscope._lowlevel import InspectionWarning
 
     ws = [str(x.message)[:160] for x in caught if issubclass(x.category, InspectionWarning)]
+    # metadata: the `as` target recorded by the generated source (None when the item has none) — also for an exiting context
+    if not ws:
+        tof = getattr(w, "target_of", {})
+        for c in ctxs:
+            if c.obj is not None and id(c.obj) in tof and type(c.obj).__name__ in ("Mgr", "AMgr") and c.varname != tof[id(c.obj)]:
+                problems.append(f"{label} (f_lasti={f.f_lasti}): varname {c.varname!r} for manager "
+                                f"{ids.get(id(c.obj))} (exiting={c.is_exiting}), the source says {tof[id(c.obj)]!r}")
     try:
         det = lowlevel.inspect_frame(f)
         blocks, depth = [[b.handler, b.level] for b in det.blocks], len(det.stack)
@@ -86,10 +93,14 @@ class C02(PropCheck):
             for _ in range(reps):
                 out.append({"k": "prog", "kind": kind, "pseed": seed, "depth": depth,
                             "choices": [rng.randrange(6) for _ in range(rng.randint(0, 14))]})
+        for ci, (kind, _src) in enumerate(progs.CORPUS):
+            if True:
+                for ch in ([], [1], [0, 1], [1, 0, 1], [0, 0, 1, 1], [1, 1, 0, 1, 0], [0, 1, 1, 0, 1, 1]):
+                    out.append({"k": "prog", "kind": kind, "corpus": ci, "pseed": 0, "depth": 0, "choices": ch})
         return out
 
     def run_real(self, case):
-        src = progs.gen_program(random.Random(case["pseed"]), case["kind"], case["depth"], probes=True)
+        src = progs.CORPUS[case["corpus"]][1] if "corpus" in case else progs.gen_program(random.Random(case["pseed"]), case["kind"], case["depth"], probes=True)
         case["_src"] = src
         probs: List[str] = []
         recs: List[dict] = []
